@@ -9,6 +9,7 @@ import BB.Oracle
 import BB.Driver.OpsReason
 import BB.Driver.OpsSegment
 import BB.Driver.OpsCps
+import BB.Driver.OpsBlocks
 import BB.Driver.OpsMacros
 import BB.Driver.OpsRules
 import BB.Driver.OpsTree
@@ -169,6 +170,8 @@ def handle (op : String) (args : List String) (text : String) : String :=
     | none => match OpsProver2.handle op args text with
     | some r => r
     | none => match OpsPyRun.handle op args text with
+    | some r => r
+    | none => match OpsBlocks.handle op args text with
     | some r => r
     | none => "BAD-OP"
 
